@@ -30,3 +30,5 @@ def run(rep: Report, repo: Repo, tier: str) -> None:
     from . import pathterms
     with rep.isolated():
         pathterms.rule_page_path(rep, repo, "C14-R7")
+    with rep.isolated():
+        fsrules.rule_pages_not_skipped(rep, repo, "C14-R8")
